@@ -181,7 +181,21 @@ class Folder:
                 return STD_MODELS[name](self, args)
             if isinstance(name, str) and self.prog.has(name) and depth < self.max_depth:
                 args = [self.ev(a, env, bind, depth) for a in t[2]]
+                if "{closure#" in name.rsplit("::", 1)[-1] and len(args) == 2 and args[1][0] == "agg" and args[1][1] == "tuple":
+                    # Fn::call(&closure, (a, b, ..)): the closure body takes the tuple's components as separate parameters
+                    if self.prog.fn(name)["mir"]["argc"] == 1 + len(args[1][4]):
+                        args = [args[0]] + list(args[1][4])
                 return self.call(name, args, depth + 1)
+            if isinstance(name, str) and not self.prog.has(name) and t[2] and depth < self.max_depth:
+                # a trait method called inside a provided method (unresolved in the generic body): dispatch on the folded receiver's type
+                recv = self.ev(t[2][0], env, bind, depth)
+                r0 = recv[1] if recv[0] == "ref" else recv
+                if r0[0] == "agg" and r0[1] == "adt" and "::" in name:
+                    tr, meth = name.rsplit("::", 1)
+                    cand = "<%s as %s>::%s" % (r0[2], tr, meth)
+                    if self.prog.has(cand):
+                        args = [recv] + [self.ev(a, env, bind, depth) for a in t[2][1:]]
+                        return self.call(cand, args, depth + 1)
             if isinstance(name, str) and self.opaque is not None and self.opaque(name):
                 # a call the caller of the folder declared symbolic (e.g. the `+` of a generic parameter): kept as a term over folded arguments
                 return ("opaque", name, tuple(self.ev(a, env, bind, depth) for a in t[2]))
@@ -511,7 +525,31 @@ def _into_int(self, args):
     raise Unknown("Into::into of a non-integer")
 
 
+def _struct_eq(a, b):
+    """structural equality of two folded values (constants and aggregates of them); Unknown if anything is not folded"""
+    a = a[1] if a[0] == "ref" else a
+    b = b[1] if b[0] == "ref" else b
+    if _isc(a) and _isc(b):
+        return a[1] == b[1]
+    if a[0] == "agg" and b[0] == "agg":
+        if a[1] != b[1] or a[3] != b[3] or len(a[4]) != len(b[4]):
+            return False
+        return all(_struct_eq(x, y) for x, y in zip(a[4], b[4]))
+    raise Unknown("equality of non-folded values")
+
+
+def _eq_model(neg):
+    def f(self, args):
+        r = _struct_eq(args[0], args[1])
+        return _c((not r) if neg else r)
+    return f
+
+
 STD_MODELS = {
+    "<std::option::Option<T> as std::cmp::PartialEq>::eq": _eq_model(False),
+    "<std::option::Option<T> as std::cmp::PartialEq>::ne": _eq_model(True),
+    "<weekday::Weekday as std::cmp::PartialEq>::eq": _eq_model(False),
+    "<weekday::Weekday as std::cmp::PartialEq>::ne": _eq_model(True),
     "std::ops::RangeInclusive::<Idx>::new": lambda self, args: ("agg", "adt", "std::ops::RangeInclusive", "RangeInclusive", (args[0], args[1], _c(False)), 0),
     "core::slice::<impl [T]>::binary_search": _binary_search,
     "std::ops::RangeInclusive::<Idx>::contains": _range_incl_contains,
